@@ -258,3 +258,89 @@ func c04VacuumPurge(c *Ctx) {
 	}
 	c.R.Cond(ok, rule, name+": purge before commit", c.P.Pos(fn.Pos()), "RemoveTombstones succeeded before the vacuumed tree is committed", "the vacuumed tree can be committed without its tombstones having been purged")
 }
+
+// ---- C04.commit-once: a failed storage commit is never repeated on the same tree --------------------
+
+func init() {
+	register(&Rule{Name: "C04.commit-once", Min: 2, Run: c04CommitOnce,
+		Doc: "no path repeats (*kv.DB).Commit after it failed: the tree marks nodes clean when their PUT is queued, so a second call on the same tree reports success without storing anything"})
+	byProp["C04"] = append(byProp["C04"], "C04.commit-once")
+	byProp["C14"] = append(byProp["C14"], "C04.commit-once")
+	byProp["C16"] = append(byProp["C16"], "C04.commit-once")
+	explain["C04"] += " commit-once: after a failed flush the in-memory tree looks clean (mast marks a node clean when its PUT is queued, not when it succeeded; the same holds when only the version PUT failed), so calling Commit again takes the 'nothing to commit' exit and acknowledges a transaction of which nothing was stored. In every library function the failure side of a call of (*kv.DB).Commit reaches no further Commit, and no Commit sits in a loop; the only recovery is the rollback to the pre-transaction snapshot (C05.snapshot)."
+}
+
+type noState struct{}
+
+func (noState) Key() string { return "" }
+
+func c04CommitOnce(c *Ctx) {
+	const rule = "C04.commit-once"
+	n := 0
+	for _, fn := range c.P.RepoFuncs(an.LibraryPkg) {
+		var commits []ssa.CallInstruction
+		for _, call := range an.Calls(fn) {
+			if an.CalleeIs(call, kvPkg, "DB", "Commit") {
+				if _, isDefer := call.(*ssa.Defer); !isDefer {
+					commits = append(commits, call)
+				}
+			}
+		}
+		// the wrapper one level up counts as a commit too (s3db.(*VirtualTable).Commit)
+		for _, call := range an.Calls(fn) {
+			if an.CalleeIs(call, core.ModPath, "VirtualTable", "Commit") {
+				commits = append(commits, call)
+			}
+		}
+		if len(commits) == 0 {
+			continue
+		}
+		name := core.FuncName(fn)
+		c.R.SawFunc(name)
+		for i, call := range commits {
+			n++
+			key := fmt.Sprintf("%s: commit is not retried", name)
+			if i > 0 {
+				key += fmt.Sprintf("#%d", i+1)
+			}
+			pos := c.P.Pos(call.Pos())
+			if an.InCycle(call.Block()) {
+				c.R.Bad(rule, key, pos, "the storage commit sits in a loop: after a failed attempt the tree looks clean and the next attempt reports success without storing anything")
+				continue
+			}
+			ev, hasErr := an.ErrResult(call)
+			if !hasErr || ev == nil {
+				c.R.OK(rule, key, pos, "single call, result not tested here (error discipline is C14.errors)")
+				continue
+			}
+			def := ev.(ssa.Instruction)
+			b := def.Block()
+			idx := 0
+			for k, in := range b.Instrs {
+				if in == def {
+					idx = k
+				}
+			}
+			var hit ssa.CallInstruction
+			h := an.THooks{Instr: func(in ssa.Instruction, st an.TState) an.TState {
+				if cl, ok := in.(ssa.CallInstruction); ok {
+					for _, o := range commits {
+						if o == cl {
+							hit = cl
+						}
+					}
+				}
+				return st
+			}}
+			an.WalkTypestateFrom(b, idx+1, noState{}, map[ssa.Value]bool{ev: false}, h, nil)
+			if hit != nil {
+				c.R.Bad(rule, key, pos, "after this commit failed, control can reach another commit of the tree at "+c.P.Pos(hit.Pos())+": the tree looks clean after a failed flush, so the repeated call takes the 'nothing to commit' exit and the transaction is acknowledged although nothing (or only part) was stored")
+			} else {
+				c.R.OK(rule, key, pos, "on the failure side no further commit is reachable")
+			}
+		}
+	}
+	if n == 0 {
+		c.R.Unk(rule, "commit call sites", "-", "no call of (*kv.DB).Commit found in library code")
+	}
+}
